@@ -236,3 +236,44 @@ Proof.
     + split; [constructor|]. cbn [sum_fst]. rewrite <- G, Z. reflexivity.
     + cbn [option_map snd fst sum_fst]. split; [constructor; [reflexivity|constructor]|]. rewrite G. ring.
 Qed.
+
+(* ---------- order along the axis is preserved ---------- *)
+Lemma div_lt a b c d : 0 < b -> 0 < d -> a * d < c * b -> a / b < c / d.
+Proof.
+  intros Hb Hd H. apply Qlt_shift_div_r; [exact Hb|].
+  setoid_replace (c / d * b) with ((c * b) / d) by (field; lra).
+  apply Qlt_shift_div_l; [exact Hd|exact H].
+Qed.
+
+(* normalizeValue is strictly increasing on the axis range *)
+Lemma normalize_increasing lo d hi v1 v2 r1 r2 : lo < d -> d < hi -> lo <= v1 -> v1 < v2 -> v2 <= hi ->
+  normalizeValue v1 lo d hi = Ok r1 -> normalizeValue v2 lo d hi = Ok r2 -> r1 < r2.
+Proof.
+  intros H1 H2 Hv1 Hlt Hv2. unfold normalizeValue.
+  destruct (Qleb_spec lo d); [|lra]. destruct (Qleb_spec d hi); [|lra]. cbn [andb negb].
+  assert (W: forall v, lo <= v -> v <= hi -> Qmax (Qmin v hi) lo == v).
+  { intros v A B. unfold Qmax, Qmin. destruct (Qleb_spec v hi); [|lra]. destruct (Qleb_spec v lo); lra. }
+  pose proof (W v1 Hv1 ltac:(lra)) as W1. pose proof (W v2 ltac:(lra) Hv2) as W2.
+  set (w1 := Qmax (Qmin v1 hi) lo) in *. set (w2 := Qmax (Qmin v2 hi) lo) in *.
+  destruct (Qeqb_spec lo hi); [lra|]. destruct (Qeqb_spec lo d); [lra|]. destruct (Qeqb_spec hi d); [lra|]. cbn [negb andb orb].
+  rewrite !andb_true_r, !andb_false_r, !orb_false_r.
+  assert (P1: 0 < d - lo) by lra. assert (P2: 0 < hi - d) by lra.
+  destruct (Qeqb_spec w1 d); destruct (Qeqb_spec w2 d); cbn [orb]; try lra;
+    destruct (Qltb_spec w1 d); destruct (Qltb_spec w2 d); try lra;
+    intros E1 E2; apply Ok_inj in E1; apply Ok_inj in E2; rewrite <- E1, <- E2.
+  all: first [ apply div_lt; [lra|lra|nra] | apply Qlt_shift_div_l; [lra|rewrite Qmult_0_l; lra] | apply Qlt_shift_div_r; [lra|rewrite Qmult_0_l; lra] | lra ].
+Qed.
+
+(* the new normalised coordinate is strictly increasing in the old one: order along the axis is preserved by instancing *)
+Theorem renormalize_increasing L v1 v2 :
+  amin L < adef L -> adef L < amax L -> 0 < dneg L -> 0 < dpos L -> amin L <= v1 -> v1 < v2 -> v2 <= amax L ->
+  renormalizeValue L v1 < renormalizeValue L v2.
+Proof.
+  intros H1 H2 Hn Hp Hv1 Hlt Hv2.
+  destruct (renormalize_keeps_user_meaning L v1 H1 H2 Hn Hp Hv1 ltac:(lra)) as [r1 [E1 Q1]].
+  destruct (renormalize_keeps_user_meaning L v2 H1 H2 Hn Hp ltac:(lra) Hv2) as [r2 [E2 Q2]].
+  cbv zeta in *. rewrite <- Q1, <- Q2.
+  set (u := user_of (dneg L) (dpos L)) in *.
+  apply (normalize_increasing (u (amin L)) (u (adef L)) (u (amax L)) (u v1) (u v2) r1 r2); try assumption;
+    unfold u; first [apply user_mono; assumption | apply user_mono_le; assumption].
+Qed.
